@@ -3,10 +3,10 @@
 package secretstore
 
 import (
-	"github.com/ipfs/go-datastore"
 	"bytes"
 	"context"
 	"fmt"
+	"github.com/ipfs/go-datastore"
 	"math/rand"
 
 	"github.com/ipfs/go-cid"
